@@ -535,3 +535,91 @@ package server
 //@   ensures [status-forgotten] !(p in m.partitionFailovers)
 //@ func (*metadataAPI).newPartitionFailoverExpiredHandler serves C07
 //@   requires m != nil
+
+// ---------------------------------------------------------------------------------------------
+// Consumer groups (property C12). Under contract: the assignment mechanics of one rebalance, the order that
+// makes it deterministic, and the epoch guards. The group-level invariants (exactly one subscribed owner per
+// partition after any operation sequence) quantify over maps of heaps driven through container/heap call-backs;
+// they are covered by the BOUNDED stand-in /verif/bounded/groups_bounded_test.go, not by these contracts.
+//@ globalinv ErrConsumerNotMember serves C12: ErrConsumerNotMember != nil
+//@ globalinv ErrBrokerNotCoordinator serves C12: ErrBrokerNotCoordinator != nil
+//@ globalinv ErrGroupEpoch serves C12: ErrGroupEpoch != nil
+//@ ghost var peeked *consumer
+//@ ghost var nextPart int32
+//@ ghost var nparts int32
+
+// bookkeeping of one member: the counter moves with the recorded partitions
+//@ func (*consumer).assignPartition serves C12
+//@   assumes c != nil
+//@   ensures [count] c.assignedCount == old(c.assignedCount) + 1
+//@   ensures [recorded1] stream in c.assignments
+//@   ensures [recorded2] len(c.assignments[stream]) >= 1
+//@   ensures [recorded3] c.assignments[stream][len(c.assignments[stream])-1] == partition
+//@ func (*consumer).removeStreamAssignments serves C12
+//@   assumes c != nil
+//@   ensures [count] c.assignedCount == old(c.assignedCount) - old(stream in c.assignments ? len(c.assignments[stream]) : 0)
+//@   ensures [forgotten] !(stream in c.assignments)
+
+// the heap order: least loaded first, ties by consumer id - a total order on distinct ids, so every server picks the same member
+//@ func (consumerHeap).Less serves C12
+//@   requires 0 <= i && i < len(c) && 0 <= j && j < len(c) && c[i] != nil && c[j] != nil
+//@   modifies nothing
+//@   ensures [least-loaded-then-id] result == (c[i].assignedCount == c[j].assignedCount ? c[i].id < c[j].id : c[i].assignedCount < c[j].assignedCount)
+//@ func (consumerHeap).Peek serves C12
+//@   requires len(c) >= 1
+//@   modifies nothing
+//@   ensures result == c[0]
+
+// one rebalance of a stream: every subscriber's assignments for the stream are dropped, then partitions 0,1,2,...
+// are handed out one by one, each to the member on top of THIS stream's subscriber heap, until the stream's
+// partition count is reached
+//@ func (*consumerGroup).balanceAssignmentsForStream serves C12
+//@   requires c != nil
+//@   call (*consumer).removeStreamAssignments requires [reset-this-stream] arg1 == streamName
+//@   ghost at entry: ghost.nextPart := 0
+//@   ghost after call getStreamPartitions: ghost.nparts := ret0
+//@   ghost after call Peek: ghost.peeked := ret0
+//@   call (*consumerGroup).assignPartition requires [next-partition-of-this-stream] arg1 == streamName && arg2 == ghost.nextPart
+//@   call (*consumerGroup).assignPartition requires [to-top-of-this-streams-heap] arg3 == ghost.peeked
+//@   ghost after call (*consumerGroup).assignPartition: ghost.nextPart := ghost.nextPart + 1
+//@   loop 2 invariant partition == ghost.nextPart && partition >= 0
+//@ func (*consumerGroup).assignPartition serves C12
+//@   requires c != nil
+//@   assumes subscriber != nil
+//@   call (*consumer).assignPartition requires [recorded-on-the-chosen-member] arg0 == subscriber && arg1 == stream && arg2 == partition
+
+// epoch guards: an operation carrying an older group epoch is refused and changes nothing; an accepted one adopts the epoch
+//@ func (*consumerGroup).AddMember serves C12
+//@   requires c != nil
+//@   ensures [stale-refused] epoch < old(c.epoch) ==> result != nil && c.epoch == old(c.epoch)
+//@   ensures [epoch-adopted] result == nil ==> c.epoch == epoch
+//@   call addMember requires [only-when-accepted] epoch >= c.epoch && arg1 == consumerID
+//@ func (*consumerGroup).RemoveMember serves C12
+//@   returns (last, err)
+//@   requires c != nil
+//@   ensures [stale-refused] epoch < old(c.epoch) ==> err != nil && c.epoch == old(c.epoch)
+//@   ensures [epoch-adopted] err == nil ==> c.epoch == epoch
+//@   ensures [member-gone] err == nil ==> !(consumerID in c.members)
+//@   call removeConsumer requires [only-when-accepted] epoch >= c.epoch
+//@ func (*consumerGroup).StreamDeleted serves C12
+//@   requires c != nil
+//@   ensures [stale-refused] epoch < old(c.epoch) ==> result != nil && c.epoch == old(c.epoch)
+//@   ensures [forgotten] result == nil ==> !(stream in c.subscribers)
+// assignments are served only by the coordinator and only for the current epoch
+//@ func (*consumerGroup).GetAssignments serves C12
+//@   returns (assignments, gepoch, err)
+//@   requires c != nil
+//@   ensures [coordinator-current-epoch] err == nil ==> c.coordinator == c.serverID && epoch == c.epoch && gepoch == c.epoch
+// join / leave / stream deletion rebalance stream by stream, and only from inside rangeStreamsOrdered's call-back
+// (sorted stream order - the same on every server): the rebalance has no other caller
+//@ func (*consumerGroup).addConsumer$1 serves C12
+//@   call Push requires [joins-this-streams-heap] unbox(arg1, "*consumer") == cons
+//@   call balanceAssignmentsForStream requires [rebalances-this-stream] arg1 == stream
+//@ func (*consumerGroup).removeConsumer$1 serves C12
+//@   call balanceAssignmentsForStream requires [rebalances-this-stream] arg1 == stream
+//@ func (*consumerGroup).StreamDeleted$1 serves C12
+//@   call balanceAssignmentsForStream requires [rebalances-this-stream] arg1 == stream
+//@ callers (*consumerGroup).balanceAssignmentsForStream serves C12: (*consumerGroup).addConsumer$1, (*consumerGroup).removeConsumer$1, (*consumerGroup).StreamDeleted$1
+//@ callers (*consumerGroup).assignPartition serves C12: (*consumerGroup).balanceAssignmentsForStream
+//@ callers (*consumer).assignPartition serves C12: (*consumerGroup).assignPartition
+//@ writers consumer.assignedCount serves C12: (*consumer).assignPartition, (*consumer).removeStreamAssignments
